@@ -25,7 +25,9 @@ def lowerHex (b : List Nat) : String := toHex (b.map Stream.lower)
 def typedDump (m : Msg) : String :=
   let xs := m.typed.map fun p =>
     match hdrParseCanon p.1 p.2 with
-    | some (.ok (_, w)) => p.1 ++ "=" ++ toHex w
+    | some (.ok (_, w)) =>
+      p.1 ++ "=" ++ toHex w ++ (if p.1 == "Content-Type" then
+        (match Mime.parse p.2 with | .ok m => "~q" ++ (match m.q with | some v => toString v | none => "-") | _ => "~q?") else "")
     | _ => p.1 ++ "=?"
   let xs := sortStrs xs
   if xs.isEmpty then "-" else ",".intercalate xs
